@@ -91,7 +91,7 @@ Theorem C14_bookmark_is_reference_outline : forall es, Forall (fun e => (1 <= e_
 Proof. exact make_tree_build. Qed.
 Print Assumptions C14_bookmark_is_reference_outline.
 
-(* the explicit panic of document.go:387 and the two index operations are
+(* the explicit panic of document.go:396 and the two index operations are
    unreachable for levels >= 1 (wanted by C01 / C07) *)
 Theorem C14_bookmark_no_panic : forall es, Forall (fun e => (1 <= e_level e)%Z) es ->
   is_ok (make_tree es) = true.
